@@ -77,6 +77,7 @@ def run(pid, tier):
     binpath = vlib.build("payments")
     sw = payments.SWITCHES
     violations, divergences, notes = [], [], []
+    truncated = False
     cov = {"legs": {}}
     tot_states = tot_trans = tot_edges = 0
     samples = []
@@ -98,7 +99,8 @@ def run(pid, tier):
 
     # ---- leg B: state graph of the real node
     for cfg, fee, pct in plan["b"]:
-        ex = payments.explore(binpath, cfg, fee, pct)
+        ex = payments.explore(binpath, cfg, fee, pct, max_states=30000 if tier == "quick" else 120000)
+        truncated = truncated or ex["truncated"]
         tag = "B_impl_%s_fee%d_pct%d" % (cfg, fee, pct)
         r1 = payments.impl_tlc(ex, "ab", "stale-revoke", ["C06a", "C06b"], True)
         rep = r1["report"]
@@ -207,7 +209,7 @@ def run(pid, tier):
         "traces_validated_against_impl": tot_edges + csteps + cruns, "concurrent_runs_judged": cruns,
         "impl_edges_checked_against_Step": tot_edges, "replayed_simulation_steps": csteps,
         "samples": samples or [{"note": "no accepted edge"}],
-        "exhaustive": True,
+        "exhaustive": not truncated,
         "spec_divergences": divergences[:30],
         "notes": notes[:20],
         "switches": sw,
